@@ -198,7 +198,28 @@ def density(ctx, I):
         names = [e.id for e in t.elts] if isinstance(t, ast.Tuple) else []
     ctx.ob("C20.density", "grid points are the Lambert projection of the same counters", bool(lam) and bool(names)
            and [a.id for a in lam[0].args if isinstance(a, ast.Name)] == names, f"to_cartesian -> {names}", loc)
-    ctx.floor("C20.density", 15)
+    # weights multiply the kernel values before they are summed
+    wmul = [n for n, s in cfg.stmt.items() if isinstance(s, (ast.AugAssign, ast.Assign)) and "weights" in ast.unparse(getattr(s, "value", s)) and
+            (isinstance(s, ast.AugAssign) and isinstance(s.op, ast.Mult) or isinstance(getattr(s, "value", None), ast.BinOp))]
+    tot = [n for n, s in cfg.stmt.items() if isinstance(s, ast.Assign) and isinstance(s.targets[0], ast.Subscript) and "sum" in ast.unparse(s.value)]
+    ctx.ob("C20.density", "weights scale the kernel values before the per-counter sum", bool(wmul) and bool(tot) and
+           all(any(cfg.dominates(w, t, idom) for w in wmul) for t in tot), f"{len(wmul)} weighting statement(s), {len(tot)} summation(s)", loc)
+    # the axial flag reaches the kernel and, inside the kernels, the radius helper
+    kcalls = [c for c in flow.calls_in(fn) if isinstance(c.func, ast.Subscript) and flow.dotted(c.func.value) == "SPHERICAL_COUNTING_KERNELS"]
+    ctx.ob("C20.density", "the kernel is called with axial=axial", bool(kcalls) and all(any(k.arg == "axial" and ast.unparse(k.value) == "axial" for k in c.keywords) for c in kcalls), "", loc)
+    for name, f in (table.items() if isinstance(table, dict) else []):
+        if not isinstance(f, FuncVal):
+            continue
+        rc = [c for c in ast.walk(f.node) if isinstance(c, ast.Call) and (flow.dotted(c.func) or "") == "_kamb_radius"]
+        for c in rc:
+            fw = any(k.arg == "axial" and ast.unparse(k.value) == "axial" for k in c.keywords) or (len(c.args) >= 3 and ast.unparse(c.args[2]) == "axial")
+            ctx.ob("C20.density", f"kernel {name} forwards its axial flag to the radius helper", fw, "", f"{ctx.program.relpath(mod.path)}:{c.lineno}")
+    kr = ctx.program.module("pydrex.stats").defs.get("_kamb_radius")
+    if isinstance(kr, ast.FunctionDef):
+        ifs = [i for i in ast.walk(kr) if isinstance(i, ast.If) and "axial" in ast.unparse(i.test)]
+        okk = bool(ifs) and any(isinstance(r, ast.Return) and ast.unparse(r.value).replace(" ", "") == "1-r" for i in ifs for r in i.body if "True" in ast.unparse(i.test) or ast.unparse(i.test) == "axial")
+        ctx.ob("C20.density", "_kamb_radius: axial data use the wider cone 1 - r, non-axial 1 - 2r", okk and "1-2*r" in ast.unparse(kr).replace(" ", ""), "", f"{ctx.program.relpath(mod.path)}:{kr.lineno}")
+    ctx.floor("C20.density", 19)
 
 
 def flow_raises(body, name):
